@@ -5,7 +5,7 @@ From Coq Require Import List Arith Bool Lia ZArith.
 From LMBase Require Import Res ListX IEEE.
 From LMScore Require Import ScoreModel SimdModel GenAvx2 GenLane4 ScoreProofs SimdProofs Sse2Proofs
      ReadmeExample StripeBridge ScorePadModel ScorePad StripePadBridge C01.
-From LMStripe Require NetModel StripeModel StripeAvx2 StripeSpec PadModel PadProofs PadHistory C04.
+From LMStripe Require NetModel StripeModel StripeAvx2 StripeSpec PadModel PadProofs PadHistory PliT Mode Avx2Proofs C04.
 Import ListNotations.
 
 (* Composition with the striping model of property C04 (coq/stripe): the hypothesis
@@ -163,8 +163,11 @@ Proof.
   exists sc, vals. repeat split; auto.
 Qed.
 
-(* non-vacuity: sample (6 draws for len = 6 ... all 8 cells drawn), then configure for a 2-column motif, at
-   C = 4: the history is well-formed, runs, and ends in a state that is NOT [Striped] *)
+(* non-vacuity, on StripedSequence::sample AS IT WAS BEFORE /repo 740d563 (C04's PadHistory.run2 keeps that
+   function: the padding cells hold further draws): sample (len = 6, all 8 cells drawn), then configure for
+   a 2-column motif, at C = 4: the history is well-formed, runs, and ends in a state that is NOT [Striped]
+   (only [Padded]).  The repaired sample pads with the wildcard: see C01_sample_scan / C01_mode_history_scan
+   below, where the sampled state satisfies [Striped] itself. *)
 Example C01_pad_history_example :
   let ops := [LMStripe.PadHistory.OSample [0; 2; 0; 1; 1; 3; 1; 2] 6;
               LMStripe.PadHistory.O1 (LMStripe.StripeAvx2.OConfigure 2)] in
@@ -172,6 +175,66 @@ Example C01_pad_history_example :
   LMStripe.PadHistory.run2 5 4 LMStripe.StripeModel.s_default ops =
     Ok (LMStripe.StripeModel.mkS [[0; 2; 0; 1]; [1; 3; 1; 2]; [2; 0; 1; 4]] 6 1) /\
   LMStripe.PadHistory.seq_after 5 4 [] ops = [0; 1; 2; 3; 0; 1].
+Proof. vm_compute. repeat split; reflexivity. Qed.
+
+(* ---------- StripedSequence::sample as repaired in /repo 740d563, and histories in wildcard mode ---------- *)
+
+(* the repaired sample (C04's PliT.striped_sample_fix, translated from seq.rs) overwrites its padding with
+   the wildcard: the sampled state satisfies [Striped] for the drawn sequence, with no look-ahead rows *)
+Theorem C01_sample_striped :
+  forall (K C : nat) (stream : nat -> nat) (len : nat),
+    0 < C ->
+    exists st,
+      LMStripe.PliT.striped_sample_fix K C stream len = Ok st /\
+      Striped C (K - 1) (LMStripe.PadModel.sample_seq C stream len) (of_stripe st) /\
+      sq_wrap (of_stripe st) = 0 /\ sq_len (of_stripe st) = len.
+Proof.
+  intros K C stream len HC.
+  destruct (LMStripe.C04.C04_sample_striped K C stream len HC) as [st [E [Hst [Hw [Hl _]]]]].
+  exists st. split; [exact E|]. split; [apply striped_bridge; exact Hst|]. split; [exact Hw|exact Hl].
+Qed.
+
+(* After ANY history of C04's op3 (sample as repaired, new, stripe, stripe_into, configure, configure_wrap,
+   clone, From<EncodedSequence>, DenseMatrix::from + new) from StripedSequence::default() that ends in
+   wildcard mode (Mode.pad_after = false: no `new` on a hand-filled matrix since the last stripe / sample):
+   never fails, the final state is [Striped] for the sequence the buffer then holds, and a scan with a motif
+   it is configured for unstripes to exactly L - M + 1 defined scores. *)
+Theorem C01_mode_history_scan :
+  forall (T : Type) (add : T -> T -> T) (zero : T) (K C : nat)
+         (ops : list LMStripe.PliT.op3) (pssm : list (list T)),
+    0 < C -> 0 < K ->
+    forallb (LMStripe.PliT.op3_ok C) ops = true ->
+    LMStripe.Mode.pad_after K C false LMStripe.StripeModel.s_default ops = false ->
+    let s := LMStripe.PliT.seq_after3 K C [] LMStripe.StripeModel.s_default ops in
+    exists st',
+      LMStripe.PliT.run3 K C LMStripe.StripeModel.s_default ops = Ok st' /\
+      Striped C (K - 1) s (of_stripe st') /\
+      (Forall (fun x => x < K) s -> pssm_wf K pssm ->
+       1 <= length pssm -> length pssm - 1 <= sq_wrap (of_stripe st') ->
+       rbind (generic_score add zero C pssm (of_stripe st')) (sc_unstripe C) =
+       Ok (map (score_def add zero (K - 1) pssm s) (seq 0 (length s + 1 - length pssm)))).
+Proof.
+  intros T add zero K C ops pssm HC HK Hok Hmode s.
+  destruct (LMStripe.C04.C04_mode_history K C ops [] LMStripe.StripeModel.s_default false HC
+              (fun _ => LMStripe.Avx2Proofs.Striped_default K C HC)
+              (LMStripe.PadProofs.Striped_StripedPad K C HC [] _ (LMStripe.Avx2Proofs.Striped_default K C HC)) Hok)
+    as [st' [Hrun [_ Hst]]].
+  exists st'. split; [exact Hrun|].
+  pose proof (striped_bridge K C _ st' (Hst Hmode)) as HS. split; [exact HS|].
+  intros Hs Hp HM Hw.
+  exact (C01_score_unstripe T add zero C K pssm s (of_stripe st') HC HK Hs Hp HS HM Hw).
+Qed.
+
+(* non-vacuity: the repaired sample (len = 6 at C = 4, 8 draws), clone, configure for a 2-column motif: the
+   history is in wildcard mode, runs, and the padding cells hold the wildcard 4 *)
+Example C01_mode_history_example :
+  let ops := [LMStripe.PliT.O2 (LMStripe.PadHistory.OSample [0; 2; 0; 1; 1; 3; 1; 2] 6); LMStripe.PliT.OClone;
+              LMStripe.PliT.O2 (LMStripe.PadHistory.O1 (LMStripe.StripeAvx2.OConfigure 2))] in
+  forallb (LMStripe.PliT.op3_ok 4) ops = true /\
+  LMStripe.Mode.pad_after 5 4 false LMStripe.StripeModel.s_default ops = false /\
+  LMStripe.PliT.run3 5 4 LMStripe.StripeModel.s_default ops =
+    Ok (LMStripe.StripeModel.mkS [[0; 2; 0; 4]; [1; 3; 1; 4]; [2; 0; 4; 4]] 6 1) /\
+  LMStripe.PliT.seq_after3 5 4 [] LMStripe.StripeModel.s_default ops = [0; 1; 2; 3; 0; 1].
 Proof. vm_compute. repeat split; reflexivity. Qed.
 
 (* the README calls as a history: to_striped() (dispatching pipeline) then configure(&pssm) *)
